@@ -4,6 +4,7 @@ package main
 
 import (
 	"fmt"
+	"math"
 	"sort"
 	"strings"
 )
@@ -553,12 +554,21 @@ func rulePeepNegZero(c *Ctx, r *R) {
 			// the negated operand: <-I0.A>
 			src := strings.TrimSuffix(strings.TrimPrefix(v.String(), "<-"), ">")
 			n++
-			excl := false
+			excl, exclMin := false, false
 			for _, nr := range rw.Narrow {
 				if nr == src+" != 0" || nr == "0 != "+src {
 					excl = true
 				}
+				// X != -X: the operand is not its own negation (0, the smallest integer)
+				if nr == src+" != <-"+src+">" || nr == "<-"+src+"> != "+src {
+					excl, exclMin = true, true
+				}
+				if nr == fmt.Sprintf("%s != %d", src, int64(math.MinInt64)) || nr == fmt.Sprintf("%d != %s", int64(math.MinInt64), src) {
+					exclMin = true
+				}
 			}
+			r.check(exclMin, rw.Key()+" "+f+" min", c.Pos(rw.Clause), "the smallest integer (its own negation) is excluded from the fold",
+				fmt.Sprintf("the window %v is folded into %s with the negated operand -%s also for the smallest integer, whose negation overflows back to itself: `func f(x float64) float64 { return x - -9223372036854775808 }` adds -2^63 with the optimiser on and subtracts it with the optimiser off", rw.Window, strings.TrimPrefix(rw.Produces, "code"), src))
 			r.check(excl, rw.Key()+" "+f, c.Pos(rw.Clause), "the operand "+src+" = 0 is excluded from the fold",
 				fmt.Sprintf("the window %v is folded into %s with the negated operand -%s also for %s = 0: `z := 0.0; z = -z; w := z - 0` gives -0 with the optimiser off and 0 with it on (1/w: -Inf and +Inf)", rw.Window, strings.TrimPrefix(rw.Produces, "code"), src, src))
 		}
